@@ -109,6 +109,16 @@ def pairs(D, rng):
                     dict(linear_coefficients=(0.0, 0.0, nu), nonlinear_coefficients=(0.0, -1.3, 0.0))))
     out.append(("KuramotoSivashinsky", dict(gradient_norm_scale=0.7, second_order_scale=0.03, fourth_order_scale=0.0004), "GeneralNonlinearStepper",
                 dict(linear_coefficients=(0.0, 0.0, -0.03, 0.0, -0.0004), nonlinear_coefficients=(0.0, 0.0, -0.7))))
+    # the zeroth-order (reaction / drag) coefficient: every generic family documents the same linear operator Sum_j a_j Sum_d (d/dx_d)^j,
+    # i.e. D * a_0 at order 0; Fisher-KPP r u (1 - u) is also the general nonlinear stepper with b_0 = -r
+    out.append(("FisherKPP", dict(diffusivity=nu, reactivity=1.5), "GeneralNonlinearStepper",
+                dict(linear_coefficients=(1.5 / D, 0.0, nu), nonlinear_coefficients=(-1.5, 0.0, 0.0))))
+    lin0 = (-0.4, -c if D == 1 else 0.0, nu)
+    for fam, fkw in (("GeneralConvectionStepper", dict(convection_scale=0.0, single_channel=True)),
+                     ("GeneralGradientNormStepper", dict(gradient_norm_scale=0.0)),
+                     ("GeneralPolynomialStepper", dict(polynomial_coefficients=(0.0, 0.0, 0.0))),
+                     ("GeneralNonlinearStepper", dict(nonlinear_coefficients=(0.0, 0.0, 0.0)))):
+        out.append(("GeneralLinearStepper", dict(linear_coefficients=lin0), fam, dict(linear_coefficients=lin0, **fkw)))
     out.append(("Burgers", dict(diffusivity=nu, convection_scale=1.3, single_channel=True, conservative=True), "GeneralNonlinearStepper",
                 dict(linear_coefficients=(0.0, 0.0, nu), nonlinear_coefficients=(0.0, -1.3, 0.0))))
     if D == 2:
